@@ -28,6 +28,13 @@ for cls, opts in (('keymap', [None]), ('hashmap', [None, 'md5', 'sha1']), ('stri
                         continue      # hash((args, dict)) raises for every call: no key is ever produced (unusable configuration, noted in DESIGN)
                     KEYMAPS.append({'cls': cls, 'opt': opt, 'flat': flat, 'typed': typed, 'sentinel': sentinel})
 
+# chained keymaps (klepto.keymaps '+'): the call is encoded by the base keymap, the key is then re-encoded by another one
+# (md5 of the pickle, pickle of the string, string of the raw tuple ...)
+_THEN = [{'cls': 'hashmap', 'opt': 'md5', 'flat': True, 'typed': False, 'sentinel': False}, {'cls': 'stringmap', 'opt': 'repr', 'flat': True, 'typed': False, 'sentinel': False},
+         {'cls': 'picklemap', 'opt': None, 'flat': True, 'typed': False, 'sentinel': False}, {'cls': 'hashmap', 'opt': 'sha1', 'flat': False, 'typed': False, 'sentinel': False}]
+for _i, _base in enumerate([k for k in KEYMAPS if k['cls'] in ('picklemap', 'stringmap', 'keymap') and k['opt'] in (None, 'repr', 'dill')]):
+    KEYMAPS.append(dict(_base, then=_THEN[_i % len(_THEN)]))
+
 PATHS = ['fkey', 'keygen', '_keygen', 'call']
 
 
@@ -236,7 +243,8 @@ def run_case(case):
 
 def kmtag(case):
     km = case['keymap']
-    return '%s%s%s%s' % (km['cls'], '' if km['flat'] else '-nonflat', '-typed' if km['typed'] else '', '-sentinel' if km['sentinel'] else '')
+    return '%s%s%s%s%s' % (km['cls'], '' if km['flat'] else '-nonflat', '-typed' if km['typed'] else '', '-sentinel' if km['sentinel'] else '',
+                           ('+then-' + km['then']['cls']) if km.get('then') else '')
 
 
 def shape(sig):
